@@ -73,6 +73,43 @@ fn compute_renames(src_dir: &Path) -> Vec<(String, String)> {
             }
         }
         if file == "rodeo.rs" {
+            // (while we are here) the configuration structs of util.rs and the key types of keys.rs
+            if let Ok(ut) = fs::read_to_string(src_dir.join("util.rs")) {
+                if let Ok(up) = syn::parse_file(&ut) {
+                    for item in &up.items {
+                        let syn::Item::Struct(st) = item else { continue };
+                        for f in &st.fields {
+                            let Some(id) = &f.ident else { continue };
+                            let ty = squash_ty(&f.ty);
+                            let canon = match (st.ident.to_string().as_str(), ty.as_str()) {
+                                ("Capacity", "usize") => Some("strings"),
+                                ("Capacity", "NonZeroUsize") => Some("bytes"),
+                                ("MemoryLimits", "usize") => Some("max_memory_usage"),
+                                _ => None,
+                            };
+                            if let Some(c) = canon {
+                                add(id.to_string(), c, &mut out);
+                            }
+                        }
+                    }
+                }
+            }
+            if let Ok(kt) = fs::read_to_string(src_dir.join("keys.rs")) {
+                if let Ok(kp) = syn::parse_file(&kt) {
+                    for item in &kp.items {
+                        let syn::Item::Struct(st) = item else { continue };
+                        if st.fields.len() == 1 {
+                            if let Some(f) = st.fields.iter().next() {
+                                if let Some(id) = &f.ident {
+                                    if squash_ty(&f.ty).starts_with("NonZero") {
+                                        add(id.to_string(), "key", &mut out);
+                                    }
+                                }
+                            }
+                        }
+                    }
+                }
+            }
             for item in &parsed.items {
                 let syn::Item::Fn(f) = item else { continue };
                 let body: String = toks(&f.block).chars().filter(|c| !c.is_whitespace()).collect();
